@@ -32,6 +32,7 @@ extern MPT_STRUCT(node) *mpt_node_query(const MPT_STRUCT(node) *conf, MPT_STRUCT
 	MPT_STRUCT(node) *pre;
 	const char *curr;
 	size_t len, off;
+	uint8_t first;
 	int clen;
 	
 	/* missing path information */
@@ -44,6 +45,7 @@ extern MPT_STRUCT(node) *mpt_node_query(const MPT_STRUCT(node) *conf, MPT_STRUCT
 	pre = 0;
 	off = path->off;
 	len = path->len;
+	first = path->first;
 	
 	/* get next path element */
 	while ((clen = mpt_path_next(path)) >= 0) {
@@ -52,6 +54,7 @@ extern MPT_STRUCT(node) *mpt_node_query(const MPT_STRUCT(node) *conf, MPT_STRUCT
 			/* restore previous path parameters */
 			path->off = off;
 			path->len = len;
+			path->first = first;
 			return pre;
 		}
 		/* use new base nodes */
@@ -64,6 +67,7 @@ extern MPT_STRUCT(node) *mpt_node_query(const MPT_STRUCT(node) *conf, MPT_STRUCT
 		/* save valid path state */
 		off = path->off;
 		len = path->len;
+		first = path->first;
 	}
 	return pre;
 }
